@@ -251,6 +251,20 @@ class Script:
             for tid, fr in sys._current_frames().items():
                 out[str(tid)] = [l.strip() for l in traceback.format_stack(fr)[-4:]]
             return {'ret': out}
+        if o == 'reset_registry':
+            from pyworkers.worker import Worker
+            Worker._active_children = type(Worker._active_children)()
+            return {'ret': True}
+        if o == 'active_children':
+            from pyworkers.worker import Worker
+
+            def f():
+                out = []
+                for c in Worker.active_children():
+                    names = [n for n, v in self.vars.items() if v is c]
+                    out.append(names[0] if names else 'foreign:%s' % type(c).__name__)
+                return sorted(out)
+            return self.call(f, 20)
         if o == 'child_pid':
             w = self.obj(op['var'])
             return {'ret': getattr(getattr(w, '_child', None), 'pid', None)}
